@@ -649,6 +649,60 @@ theorem asks_answered (cfg : Cfg) (ops : List Op) (hops : ∀ op ∈ ops, op ≠
     exact ih (fun o ho => hops o (by simp [ho])) _ (wf_step cfg s op hwf)
       (balanced_step cfg s op hwf h (hops op (by simp)))
 
+/-! ## what a tell may follow (whole histories) -/
+
+/-- the protocol state an accepted call leaves behind: a tell leaves the ask phase even when it is
+    then rejected with ValueError for a wrong-length array (the code records the call first) -/
+def opPhase : Op → Phase
+  | .ask _ => .ask
+  | .askDqd _ => .askDqd
+  | .tell => .tell
+  | .tellBad => .tell
+  | .tellDqd => .tellDqd
+  | .tellDqdBad => .tellDqd
+
+theorem phase_after_allowed (cfg : Cfg) (s : St) (op : Op) (h : allowed s.phase op = true) :
+    (step cfg s op).1.phase = opPhase op := by
+  cases op <;> cases hp : s.phase <;> simp_all [allowed, step, doAsk, doTell, opPhase]
+
+/-- for every call sequence the protocol state is the one left by the last call that was not rejected
+    with RuntimeError (the initial state if there is none) -/
+theorem phase_run (cfg : Cfg) (s : St) (ops : List Op) :
+    (run cfg s ops).phase =
+      match (accepted cfg s ops).getLast? with
+      | none => s.phase
+      | some op => opPhase op := by
+  induction ops generalizing s with
+  | nil => rfl
+  | cons op ops ih =>
+    simp only [accepted]
+    by_cases ha : allowed s.phase op = true
+    · simp only [ha, if_true, run, List.foldl_cons]
+      have := ih (step cfg s op).1
+      simp only [run] at this
+      rw [this, List.getLast?_cons]
+      cases (accepted cfg (step cfg s op).1 ops).getLast? with
+      | none => simpa using phase_after_allowed cfg s op ha
+      | some x => rfl
+    · have hf : allowed s.phase op = false := by simpa using ha
+      have hs := protocol_unchanged cfg s op ((protocol cfg s op).mpr hf)
+      simp only [hf, Bool.false_eq_true, if_false, run, List.foldl_cons, hs]
+      exact ih s
+
+/-- T04.1 for whole histories: after any sequence of calls on a fresh scheduler, `tell` is accepted
+    exactly when the last call that was not out of order is an `ask` — not an `ask_dqd`, not a tell of
+    either kind (accepted, or rejected for a wrong-length array), and not "nothing yet"; dually for
+    `tell_dqd` and `ask_dqd`. -/
+theorem tell_follows_matching_ask (cfg : Cfg) (ops : List Op) :
+    (allowed (run cfg init ops).phase .tell = true ↔
+      ∃ ns, (accepted cfg init ops).getLast? = some (.ask ns)) ∧
+    (allowed (run cfg init ops).phase .tellDqd = true ↔
+      ∃ ns, (accepted cfg init ops).getLast? = some (.askDqd ns)) := by
+  rw [phase_run]
+  cases h : (accepted cfg init ops).getLast? with
+  | none => simp [allowed, init]
+  | some op => cases op <;> simp [allowed, opPhase]
+
 /-! ## non-vacuity -/
 
 /-- a concrete history with three emitters, unequal and zero batch sizes, illegal calls in between,
